@@ -148,7 +148,7 @@ def check_agree(case):
 # ------------------------------------------------------------------ strategies
 
 KINDS = ["tri", "fbank", "gabor", "gabor", "gammatone", "gammatone", "gammatone"]
-LOW_RATES = [1000, 2000, 8000, 8000, 11025, 16000, 22050, 44100]
+LOW_RATES = [1000, 2000, 8000, 8000, 11025, 16000, 22050, 32000, 44100, 48000]
 
 
 def _cases():
@@ -156,6 +156,8 @@ def _cases():
     banks = st.one_of(
         bank_specs(kinds=KINDS, rates=LOW_RATES, max_filts=12, **kw),
         narrowed_specs(KINDS, max_filts=24, rates=LOW_RATES, **kw),
+        # many narrow filters at a high rate: the temporal supports are long and depend on the rate itself
+        bank_specs(kinds=KINDS, rates=[32000, 44100, 48000], max_filts=40, min_filts=24, **kw),
     )
     return st.fixed_dictionaries({
         "bank": banks, "filt": st.integers(0, 39),
